@@ -139,14 +139,19 @@ class Script:
        for adv in (1, 2) for cold in (False, True)]
     + [{"S": 2, "mode": "all2", "_pre": f"p0 == {a} and d0 == 0 and c0 == 0"} for a in range(2)],
     example=dict(p0=1, p1=0, p2=1, p3=0, p4=0, p5=0, b0=2, sa=1, sv=0, rst=0, ping=0, aband=0, d0=0, c0=0, cz=0),
-    require=("interleaved", "all-complete"),
+    require=("C12:interleaved", "C12:all-complete", "C01:all-complete", "C02:all-complete", "C08:all-complete",
+             "C03:cancelled-outside-a-network-write"),
     timeout={"quick": 300, "thorough": 1800},
     symbolic="merge order of the per-stream frame sequences (up to 6 picks), batch boundary b0, SETTINGS(MAX_CONCURRENT_STREAMS) position and value from {1,2,3,100,1000} (incl. below the number in flight) or a SETTINGS frame that changes another parameter only, RST_STREAM on one stream, PING position, which caller abandons its response, one deviation from the FIFO schedule, cancellation of the first caller at a scheduler step",
     bounds="S = 2 or 3 concurrent requests after a warm-up request on one HTTP/2 connection (prior knowledge), responses of HEADERS + 2 DATA frames",
     outside="more than 3 concurrent streams; CONTINUATION/push/priority frames; more than one schedule deviation",
     stubs=("strict h2 library in server role (raises on stream-limit or flow-control violations)", "server releases the next batch of frames whenever every client task is blocked"),
-    also=("C01", "C02", "C08"),
-    per_prop={"C08": {"quick": [{"S": 2, "mode": "order", "_pre": f"sv == 0 and rst == 0 and ping == 0 and d0 == 0 and c0 == 0 and aband == 0 and p0 == {a} and p1 == {b}"}
+    also=("C01", "C02", "C08", "C03"),
+    per_prop={"C03": {"quick": [{"S": 2, "mode": "cancel", "_pre": f"cz > 0 and sv == 0 and rst == 0 and ping == 0 and b0 == {b} and p2 == 0 and p3 == 0 and p4 == 0 and p5 == 0 and aband == 0 and d0 == 0 and c0 == 0"}
+                                for b in (0, 4)],
+                      "thorough": [{"S": S, "mode": "cancel", "_pre": f"cz > 0 and sv == {v} and rst == 0 and ping == 0 and b0 == {b} and p2 == 0 and p3 == 0 and p4 == 0 and p5 == 0 and aband == 0 and d0 == 0 and c0 == 0 and sa <= 5"}
+                                   for S in (2, 3) for v in (0, 5) for b in (0, 4)]},
+              "C08": {"quick": [{"S": 2, "mode": "order", "_pre": f"sv == 0 and rst == 0 and ping == 0 and d0 == 0 and c0 == 0 and aband == 0 and p0 == {a} and p1 == {b}"}
                                 for a in (0, 1) for b in (0, 1)],
                       "thorough": [{"S": 3, "mode": "order3", "_pre": f"sv == 0 and rst == 0 and ping == 0 and b0 == 0 and p0 == {a} and aband == 0 and d0 == 0 and c0 == 0"} for a in range(3)]
                       + [{"S": 2, "mode": "sched", "_pre": "sv == 0 and rst == 0 and ping == 0 and aband == 0 and b0 in (0, 2) and p2 == 0 and p3 == 0 and p4 == 0 and p5 == 0"}]},
@@ -176,6 +181,12 @@ def streams(p0: int, p1: int, p2: int, p3: int, p4: int, p5: int, b0: int, sa: i
     dd, cc, czz = ladder(d0, 0, 30), ladder(c0, 0, 2), ladder(cz, 0, 40)
     with concrete(bb, saa, svv, rr, pp, ab, dd, cc, czz, *picks):
         _streams(S, picks, bb, saa, MAXS[svv], rr - 1, pp - 1, ab - 1, [(dd, cc)] if dd or cc else [], czz)
+
+
+def lost_at(su: typing.Any) -> int:
+    """Ledger position at which the first write was lost (the ledger records operations that happened, so: the number
+    of entries at the moment of the cancellation, kept by the runtime's trace of the cancel step)."""
+    return getattr(su.net, "lost_mark", len(su.net.ledger))
 
 
 def _streams(S: int, picks: list[int], b0: int, settings_at: int, settings_val: int, rst_idx: int, ping_at: int,
@@ -229,6 +240,22 @@ def _streams(S: int, picks: list[int], b0: int, settings_at: int, settings_val: 
     for prop in ("C12", "C01", "C02", "C08"):
         token_oracle(callers, prop, sig)
     if cancel_at:
+        # C03: a caller that is cancelled anywhere but inside a network write (at a lock, a semaphore, a read) has not
+        # lost a byte that the HTTP/2 state machine regards as sent: what the *other* callers then put on the wire must
+        # still decode at the server (connection-wide HPACK state in step) and be their own requests
+        lost = [n for sk, n in su.net.writes_lost]
+        P.cover("cancelled-inside-a-network-write" if lost else "cancelled-outside-a-network-write")
+        how = "after-an-interrupted-write" if lost else "after-cancel-outside-a-write"
+        P.check(not srv.violations, "requests-of-the-other-callers-decode-at-the-server",
+                lambda: f"{sig}:server-cannot-decode:{how}:{srv.violations[0].split(':')[0]}", prop="C03")
+        # (a request may legitimately have been re-sent on a second connection: look at every origin)
+        seen = {o.path(sid): st for o in su.origins for sid, st in o.streams.items()}
+        for c in callers[1:]:
+            st = seen.get(b"/" + c.token)
+            ok = st is not None and (b":method", b"GET") in st["headers"] and (b":authority", b"example.com") in st["headers"]
+            # (a request that never reached the wire must at least not be reported as served)
+            P.check(ok or c.exc is not None or bool(rt.deadlocked), "requests-of-the-other-callers-arrive-as-sent",
+                    lambda: f"{sig}:request-lost-or-altered:{how}:{c.name}", prop="C03")
         # a caller cancelled while it is still *sending* is outside C12's
         # quantifier (callers "read or abandon"): only isolation of what the
         # others received is asserted for those runs.  Once its request has
